@@ -32,7 +32,9 @@ Inductive mout :=
 | MRaised.                               (* serving the patch raised (PRaise): the exception propagates out of the transport call *)
 
 (* the value a callback patch computes: the harness's callbacks return [tag, arguments] *)
-Definition callback_value (tag : json) (p : params) : json := JArr [tag; params_json p].
+(* ... or, for a tag of the form {"const": v}, the constant v whatever the arguments (a void method, a counter at 0, ...) *)
+Definition callback_value (tag : json) (p : params) : json :=
+  match tag with JObj [("const"%string, v)] => v | _ => JArr [tag; params_json p] end.
 
 (* list[idx] = x with Python's index rule *)
 Definition norm_index (idx : Z) (n : nat) : option nat :=
